@@ -199,6 +199,37 @@ Theorem C20_mrp_other_device_ignored : forall (s : mstate DR) (v : R) (ops : lis
 Proof. intros s v ops. reflexivity. Qed.
 Print Assumptions C20_mrp_other_device_ignored.
 
+(* facade + CompanionAudio + RaopAudio on one core state dispatcher: for EVERY state and EVERY
+   history - set/step/read through the facade, device reports of any real fraction `_vol`, reports
+   without volume control or without `_vol`, listener deliveries, RAOP stream starts with any
+   advertised initial level - whatever reaches a protocol's set_volume (Companion's from the facade,
+   RAOP's at stream start from the intercepted announcement) is within [0,100], every dBFS sent to the
+   receiver is valid, every value read is within [0,100], the only exception is ProtocolError *)
+Theorem C20_cross_all_histories : forall (s : xstate DR) (ops : list (@xop DR)),
+  Forall (Forall good_event) (xrun DR s ops).
+Proof. intros s ops. exact (xrun_events ops s). Qed.
+Print Assumptions C20_cross_all_histories.
+
+(* the dispatcher hop is faithful: the percent level the device reported (fraction f, announced as
+   rnd(f*100)) is the level RaopAudio hands on at the next stream start, within 2^-43 ... *)
+Theorem C20_cross_report_forwarded : forall (f : R) (initial : option R), 0 <= rnd (f * 100) <= 100 ->
+  exists evp d y d',
+    xrun DR (xinit DR) [@XReport DR f; @XPump DR; @XStream DR initial] = [[]; evp; [@Fwd DR y; @Dev DR d']] /\
+    ~ (exists e, In (@Exc DR e) evp) /\ In (@Echo DR d) evp /\
+    (d = -144 \/ -30 <= d <= 0) /\ (d' = -144 \/ -30 <= d' <= 0) /\
+    Rabs (y - rnd (f * 100)) <= bpow radix2 (-43).
+Proof. intros f i. exact (cross_forward f i). Qed.
+Print Assumptions C20_cross_report_forwarded.
+
+(* ... and a report outside [0,100] percent is rejected on the way: nothing is stored, the next
+   stream starts from the default level *)
+Theorem C20_cross_report_rejected : forall f : R, ~ 0 <= rnd (f * 100) <= 100 ->
+  exists evp d,
+    xrun DR (xinit DR) [@XReport DR f; @XPump DR; @XStream DR None] = [[]; evp; [@Fwd DR 33; @Dev DR d]] /\
+    In (@Swallowed DR ValueError) evp /\ (forall d0, ~ In (@Echo DR d0) evp) /\ (d = -144 \/ -30 <= d <= 0).
+Proof. exact cross_rejected. Qed.
+Print Assumptions C20_cross_report_rejected.
+
 (* facade + MrpAudio: as long as the device reports levels within [0,100], every history keeps
    every returned value and every level handed to MrpAudio.set_volume within [0,100] *)
 Theorem C20_mrp_all_histories : forall (s : mstate DR) (ops : list (@mop DR)),
